@@ -19,7 +19,7 @@ ASSUME \A i \in 1..NT : TLCSet(i, 0)
 Chk(name, c) == IF c THEN TRUE ELSE PrintT(<<"MISMATCH", Traces[tid].tid, l, name>>) /\ FALSE
 ToSetOf(s) == {s[k] : k \in DOMAIN s}
 
-TInit == tid \in 1..NT /\ l = 1 /\ Init0([R |-> Traces[tid].R])
+TInit == tid \in 1..NT /\ l = 1 /\ Init0([R |-> Traces[tid].R, S |-> Traces[tid].S])
 
 Step(e) ==
   CASE e.act = "Init"           -> InitNet(ToSetOf(e.allowed), ToSetOf(e.required))
@@ -34,6 +34,8 @@ Step(e) ==
     [] e.act = "Reindex"        -> Reindex
     [] e.act = "FindDup"        -> FindDup(e.mode)
     [] e.act = "RemoveDup"      -> RemoveDup
+    [] e.act = "AppendDepletion"  -> Chk("DepletionOfEveryNeutralGasSpecies", DepletionComplete(e.ids)) /\ AddAll(e.ids)
+    [] e.act = "AppendDesorption" -> Chk("DesorptionOfEveryIceSpecies", DesorptionComplete(e.ids, e.ty)) /\ AddAll(e.ids)
 
 Post(e) ==
   /\ Chk("ReactionList", rlist' = e.post.rlist)
